@@ -4,13 +4,16 @@ package main
 import (
 	"context"
 	"fmt"
+	"math/rand"
 	"os"
+	"path/filepath"
 	"syscall"
 	"time"
 	"unsafe"
 
 	"verifh/lib/hx"
 
+	"github.com/criyle/go-sandbox/pkg/seccomp"
 	"github.com/criyle/go-sandbox/pkg/seccomp/libseccomp"
 	"github.com/criyle/go-sandbox/ptracer"
 	"github.com/criyle/go-sandbox/runner"
@@ -58,8 +61,85 @@ func main() {
 	if err != nil {
 		panic(err)
 	}
+	// only the path syscalls trap (the usual production shape: exit_group, clone, kill ... are not seen by the tracer)
+	var trapPaths seccomp.Filter
+	names := []string{"open", "openat", "openat2", "readlink", "readlinkat", "unlink", "unlinkat", "mkdirat", "rename", "renameat", "renameat2",
+		"access", "faccessat", "faccessat2", "stat", "lstat", "newfstatat", "statx", "execve", "execveat", "chmod"}
+	for len(names) > 0 {
+		if trapPaths, err = (&libseccomp.Builder{Trace: names, Default: libseccomp.ActionAllow}).Build(); err == nil {
+			break
+		}
+		// a name the assembler's table does not know: drop names from the end until it builds
+		names = names[:len(names)-1]
+	}
+	if trapPaths == nil {
+		panic(err)
+	}
 	hx.Cases(func(c map[string]any) map[string]any {
 		switch c["kind"].(string) {
+		case "dying":
+			// a program whose tasks die (exit_group / SIGKILL / execve of a sibling) while they are inside traced path syscalls
+			wd := os.Getenv("VERIF_SCRATCH")
+			if wd == "" {
+				wd = "/tmp"
+			}
+			filter := trapAll
+			if c["filter"].(string) == "paths" {
+				filter = trapPaths
+			}
+			args := []string{filepath.Join(hx.BinDir(), "probe_dying"), c["killer"].(string), c["form"].(string), c["cwd"].(string),
+				fmt.Sprint(hx.Int(c["workers"])), fmt.Sprint(hx.Int(c["maxdelay_us"]))}
+			r := &ptrace.Runner{Args: args, Env: []string{}, WorkDir: wd,
+				Limit: runner.Limit{TimeLimit: 5 * time.Second, MemoryLimit: runner.Size(1 << 30)}, Seccomp: filter, Handler: allowAll{}}
+			reps := int(hx.Int(c["reps"]))
+			// the verdicts that describe how this program ends
+			want := map[int]bool{}
+			for _, w := range c["want_status"].([]any) {
+				want[int(hx.Int(w))] = true
+			}
+			counts := map[string]int{}
+			var slowest int64
+			var bad []map[string]any
+			ready := filepath.Join(wd, "c15.ready")
+			rnd := rand.New(rand.NewSource(hx.Int(c["id"])))
+			for i := 0; i < reps; i++ {
+				os.Remove(ready)
+				t0 := time.Now()
+				ctx, cancel := context.WithTimeout(context.Background(), 10*time.Second)
+				var res runner.Result
+				if c["killer"].(string) == "none" {
+					// the run is cancelled by its owner at a random moment after the workers started their calls
+					done := make(chan runner.Result, 1)
+					go func() { done <- r.Run(ctx) }()
+					limit := time.Now().Add(8 * time.Second)
+					for time.Now().Before(limit) {
+						if _, e := os.Stat(ready); e == nil {
+							break
+						}
+						time.Sleep(200 * time.Microsecond)
+					}
+					time.Sleep(time.Duration(rnd.Int63n(hx.Int(c["maxdelay_us"])*1000 + 1)))
+					cancel()
+					res = <-done
+				} else {
+					res = r.Run(ctx)
+				}
+				cancel()
+				d := time.Since(t0).Milliseconds()
+				if d > slowest {
+					slowest = d
+				}
+				counts[fmt.Sprintf("%d", int(res.Status))]++
+				if !want[int(res.Status)] && len(bad) < 3 {
+					bad = append(bad, map[string]any{"run": i, "argv": args, "status": int(res.Status), "status_name": res.Status.String(),
+						"exit_status": res.ExitStatus, "error": res.Error, "ms": d})
+				}
+				// one failing repetition is a counterexample: do not spend the rest of the budget on the same case
+				if !want[int(res.Status)] && (res.Status == runner.StatusRunnerError || res.Status == runner.StatusTimeLimitExceeded) {
+					break
+				}
+			}
+			return map[string]any{"statuses": counts, "unexpected": bad, "slowest_ms": slowest}
 		case "getstring":
 			// pages: which of the first four pages are readable; nuls: offsets holding NUL; off: where the string starts
 			syscall.Mprotect(region, syscall.PROT_READ|syscall.PROT_WRITE)
